@@ -148,6 +148,11 @@ type sess struct {
 
 	// UDP session timing (cases with a short UDPReadTimeout)
 	lastData map[*nbio.Conn]time.Time
+	curRecv  time.Time                // when the recvfrom that produced the datagram now being handed over returned
+	recvAt   map[string]time.Time     // remote -> when its last datagram was received (a lower bound of the deadline's renewal)
+	connRecv map[*nbio.Conn]time.Time // session -> same
+	pendEcho string                   // timed cases: the echo of a `poll` waits until the harness knows whether it was late
+	lateSeen bool                     // a datagram was processed too close to (or after) the earliest possible deadline: not judged
 	attrLog  []string // remote>session id of every non-empty datagram handed over
 
 	// side conns: further stream conns of the same engine (fd table / dispatch: who gets whose bytes)
@@ -392,13 +397,15 @@ func (s *sess) onClose(nc *nbio.Conn, err error) {
 	if s.udpto == 0 || nc == s.c || errClass(err) != "rtimeout" {
 		return
 	}
-	last, ok := s.lastData[nc]
+	// the deadline was renewed AFTER the session's last datagram was received: a timeout close earlier than T after that
+	// receive is early whatever the load (the close handler running late only hides a violation)
+	last, ok := s.connRecv[nc]
 	if !ok {
 		return
 	}
 	T := time.Duration(s.udpto) * time.Millisecond
-	if silent := time.Since(last); silent < T*9/10 {
-		s.oracle = append(s.oracle, fmt.Sprintf("c02-udp-demux session of remote %s closed by the UDP read timeout %v after its last datagram (UDPReadTimeout %v): the deadline is not renewed by every datagram, later datagrams of this remote go to a new conn", s.connAddr[nc], silent.Round(time.Millisecond), T))
+	if silent := time.Since(last); silent < T-5*time.Millisecond {
+		s.oracle = append(s.oracle, fmt.Sprintf("c02-udp-demux session of remote %s closed by the UDP read timeout %v after its last datagram was received (UDPReadTimeout %v): the deadline is not renewed by every datagram, later datagrams of this remote go to a new conn", s.connAddr[nc], silent.Round(time.Millisecond), T))
 	}
 }
 
@@ -456,8 +463,25 @@ func (s *sess) onData(nc *nbio.Conn, data []byte) {
 		s.oracle = append(s.oracle, fmt.Sprintf("c02-delivery datagram %d: got %d bytes, sent %d (boundaries/content differ)", s.delD-1, len(data), len(d.data)))
 	}
 	s.attrLog = append(s.attrLog, fmt.Sprintf("%s>%d", d.addr, id))
+	conclusive := true
+	if s.udpto > 0 {
+		// The session of this remote had its deadline renewed no earlier than when the remote's previous datagram was
+		// received; it was looked up no later than now. If now is safely before (previous receive + T) the session MUST
+		// still have been alive: judged. Otherwise the margin was eaten (load): the session may legitimately have expired —
+		// nothing is judged and the rest of the case is not compared.
+		T := time.Duration(s.udpto) * time.Millisecond
+		if s.recvAt == nil {
+			s.recvAt, s.connRecv = map[string]time.Time{}, map[*nbio.Conn]time.Time{}
+		}
+		if prev, ok := s.recvAt[d.addr]; ok && !time.Now().Before(prev.Add(T-5*time.Millisecond)) {
+			conclusive = false
+			s.lateSeen = true
+		}
+		s.recvAt[d.addr] = s.curRecv
+		s.connRecv[nc] = s.curRecv
+	}
 	// demux
-	if prev, ok := s.addrConn[d.addr]; ok && prev != nc {
+	if prev, ok := s.addrConn[d.addr]; ok && prev != nc && conclusive {
 		s.oracle = append(s.oracle, "c02-udp-demux same remote "+d.addr+" attributed to two different conns")
 	}
 	if pa, ok := s.connAddr[nc]; ok && pa != d.addr {
@@ -587,6 +611,19 @@ func (s *sess) taskState() string {
 }
 
 func (s *sess) state(e *lp.Exec, what string) {
+	if pe := s.pendEcho; pe != "" {
+		s.pendEcho = ""
+		s.mu.Lock()
+		late := s.lateSeen
+		s.mu.Unlock()
+		if late {
+			e.P("> %s late", pe)
+			e.P("R late")
+			s.dead = true
+			return
+		}
+		e.P("> %s", pe)
+	}
 	if !s.dead {
 		s.scanCtl()
 	}
@@ -804,6 +841,11 @@ func (s *sess) pauseTask(desc string) {
 
 func readHook(fd int, n int, err error) {
 	s := getCur()
+	if s != nil && s.udpto > 0 && fd == s.fd && err == nil {
+		s.mu.Lock()
+		s.curRecv = time.Now()
+		s.mu.Unlock()
+	}
 	if s == nil || fd != s.fd || !s.park() {
 		return
 	}
@@ -1050,7 +1092,11 @@ func exec(e *lp.Exec) {
 			}
 			continue
 		}
-		e.P("> %s", line)
+		if f[0] == "poll" && len(f) == 1 && s != nil && !s.dead && s.udpto > 0 {
+			s.pendEcho = line // annotated by state(): `poll late` if a datagram was processed with its margin eaten
+		} else {
+			e.P("> %s", line)
+		}
 		if f[0] == "C" {
 			finish()
 			if len(f) != 8 && len(f) != 9 {
